@@ -1074,7 +1074,7 @@ func checkFilterSites(c *Ctx, tables map[string][]cbpf.Ins, tupleProgs [][]cbpf.
 		}
 		R.Check(inForce >= 1, "R12.4", e.fn+"#filter-in-force", f.Pos(), e.fn, "a matcher filter (not only the handshake SYN-ACK filter) is installed for the engine run", "no filter for the matcher's reply forms is installed: the capture would only ever see handshake SYN-ACKs (or everything)")
 	}
-	R.Floor("R12.4:SetPacketFilter-sites", nsites, 5)
+	R.Floor("R12.4:SetPacketFilter-sites", nsites, 4)
 }
 
 func keysOf(m map[string]bool) []string {
